@@ -232,7 +232,7 @@ def cacheOf (ops : List Op) : List (Key × Pts Int) :=
 def seqLen (s : List (Key × OBlk Int)) : Nat := s.length + 1
 
 def modelCompact (ops : List Op) (fast : Bool) (size : Nat) : Obs :=
-  match compactSeq ⟨size, fast⟩ ((readers ops).map RFile.runs) with
+  match compactSeq { size := size, fast := fast } ((readers ops).map RFile.runs) with
   | .ok s => Obs.out (splitFiles limits (fun _ => 0) (seqLen s) s)
   | .error e => Obs.err e
 
